@@ -108,7 +108,7 @@ class Prog:
         self.events, self.moves, self.draws = [], [], []
         self.R = [None] * len(case['rts'])
         self.idx = {}
-        nconds = 1 + max([a[1] for s in case['rts'] for a in s if a[0] in ('wait', 'sig')], default=-1)
+        nconds = 1 + max([a[1] for s in case['rts'] for a in s if a[0] in ('wait', 'sig', 'unh')], default=-1)
         self.conds = [self.stm.Condition() for _ in range(nconds)]
         self.tempo = [self.clk.TempoClock(num(t)) for t in case['tempi']]
         self.addr = env['NetAddr']('127.0.0.1', 57110)
@@ -231,6 +231,10 @@ class Prog:
                     resumed(k + 1, clock)
                 elif op == 'log':
                     run.events.append(f'L:{i}:{fr(clock.beats)}:{fr(clock.seconds - run.start)}')
+                elif op == 'note':
+                    run.events.append(f'L:{i}:{fr(clock.beats)}:{fr(clock.seconds - run.start)}')
+                    if run.env['mode'] == 'nrt':
+                        run.env['note'](a[1])
                 elif op == 'send':
                     run.addr.send_bundle(lat_of(a[1]), ['/c10', float(zlib.crc32(repr(last).encode()) % 4096), a[1]])
                     run.events.append(f'B:{i}:{a[1]}:{fr(clock.seconds - run.start)}')
@@ -257,7 +261,14 @@ class Prog:
                             if b[0] == 'log':
                                 run.events.append(f'L:{t}:{fr(c.beats)}:{fr(c.seconds - run.start)}')
                     run.clk.defer(task, num(a[3]), run.clock(a[2]))
-                elif op in ('pause', 'stop'):
+                elif op == 'spawnabs':
+                    # a child started with SystemClock.sched_abs(<logical now> + d, child)
+                    r = run.R[a[1]] or run.create(a[1])
+                    sysclk = run.clk.SystemClock
+                    sysclk.sched_abs(sysclk.seconds + num(a[2]), r)
+                elif op == 'unh':
+                    run.conds[a[1]].unhang()
+                elif op in ('pause', 'stop', 'reset'):
                     r = run.R[a[1]]
                     if r is not None:
                         try:
@@ -343,7 +354,7 @@ def _alarm(signum, frame):
     raise Livelock()
 
 
-def boot_nrt():
+def boot_nrt(payload_has_notes=False):
     if _env:
         return _env
     import sc3
@@ -353,7 +364,18 @@ def boot_nrt():
     from sc3.base import stream as stm, clock as clk, builtins as bi
     from sc3.base.netaddr import NetAddr
     _env.update(main=main, stm=stm, clk=clk, bi=bi, NetAddr=NetAddr, mode='nrt',
-                now=lambda: main.main_tt._m_seconds)
+                now=lambda: main.main_tt._m_seconds, note=lambda k: None)
+    if payload_has_notes:
+        from sc3.all import synthdef, EnvGen, Env, RLPF, Saw, Out, Pan2, Mix
+        from sc3.seq.event import event
+
+        @synthdef
+        def c10ping(freq=440, amp=0.1, pan=0, gate=1, out=0, cutoff=2000, rq=0.5, detune=0.1):
+            env = EnvGen.kr(Env.asr(), gate, done_action=2)
+            sig = RLPF.ar(Saw.ar([freq, freq + detune]), cutoff, rq) * env * amp
+            Out.ar(out, Pan2.ar(Mix(sig), pan))
+        _env['note'] = lambda k: event({'instrument': 'c10ping', 'midinote': 60 + k, 'dur': 0.5, 'amp': 0.1 + k / 100,
+                                        'pan': (k - 6) / 6, 'cutoff': 300.0 + 100 * k, 'rq': 0.3}).play()
     return _env
 
 
@@ -417,6 +439,7 @@ def nrt_case(case):
 
 
 def run_nrt(payload):
+    boot_nrt(any(a[0] == 'note' for c in payload['cases'] for sc in c['rts'] for a in sc))
     return [nrt_case(c) for c in payload['cases']]
 
 
